@@ -8,6 +8,11 @@ Definition D (m : Z) (s : nat) : Qc := of_dec m s.
 Definition P (a : N) (amt : option vexpr) (cost lot : option exchange) (bal : option vexpr) : posting :=
   {| p_account := a; p_amount := amt; p_cost := cost; p_lot := lot; p_balance := bal |}.
 Definition T (d : Z) (ps : list posting) : txn := {| t_date := d; t_posts := ps |}.
+(* a transaction written `DATE=EFFECTIVE`: the harness hands over the effective date it wrote;
+   the ledger that is booked has none (report::book_keeping::add_transaction reads `txn.date`
+   only, Model/Lower.v low_entry lowers `st_date` and drops `st_edate`), so price events, stored
+   transactions and report dates are those of DATE *)
+Definition TE (d ed : Z) (ps : list posting) : txn := T d ps.
 Definition OP (a : N) (amt : amount) (conv : option (cid * Qc)) : oposting :=
   {| o_account := a; o_amount := amt; o_converted := conv |}.
 
